@@ -75,12 +75,21 @@ class History(object):
         self.mag = max(self.mag, 1.0 + cur)
         return self.rtol * self.mag
 
+    def _refresh_rtol(self):
+        """the model's own rotation blocks drift away from SO(3) under chained products (transpose inverses): the reference and
+        evo are then both only defect-accurate; histories whose model defect exceeds 1e-8 are numerically meaningless"""
+        defect = max([rm.orthonormality_defect(p[:3, :3]) for p in self.poses] + [0.0])
+        if defect > 1e-8:
+            raise Skip("accumulated numerical drift of the reference model beyond 1e-8")
+        self.rtol = max(self.rtol, 1e-9 + 50 * defect)
+
     def invariant(self, after, full=False):
         o = self.obj
         d = o.__dict__
         n = len(self.poses)
         if o.num_poses != n:
             raise Mismatch("after %s: num_poses is %d, model has %d" % (after, o.num_poses, n), observed="count", after=after)
+        self._refresh_rtol()
         ptol = self._ptol()
         P = np.array([p[:3, 3] for p in self.poses]).reshape(n, 3)
         if full:
